@@ -384,4 +384,571 @@ theorem noTopAll (f : Nat) : NoTopAll f := by
   | zero => exact noTopAll_zero
   | succ n ih => exact noTopAll_succ n ih
 
+/-! ## 3. Where a run comes to rest (`suspendA`) against the run itself -/
+
+theorem peekWaitA_stop_cases (b : Bool) (n : Nat) (ex : List Sexp) (fin : Bool) (rs : List Char) (c : LexCore)
+    (st : Status) (v' : View) (h : peekWaitA b n ex fin rs c = .stop st v') : st = .more ∨ st = .err := by
+  induction rs generalizing c with
+  | nil =>
+    simp only [peekWaitA] at h
+    cases hh : headIf n c with
+    | some t => simp [hh] at h
+    | none =>
+      simp only [hh] at h
+      split at h
+      · simp at h
+      · simp only [PeekOutA.stop.injEq] at h; exact .inl h.1.symm
+  | cons r rs ih =>
+    simp only [peekWaitA] at h
+    cases hh : headIf n c with
+    | some t => simp [hh] at h
+    | none =>
+      simp only [hh] at h
+      cases hs : step c r with
+      | ok c' => simp only [hs] at h; exact ih c' h
+      | err e c' => simp only [hs, PeekOutA.stop.injEq] at h; exact .inr h.1.symm
+
+/-- an error found in the first part of the input is found with any continuation -/
+theorem peekWaitA_append_err (b : Bool) (n : Nat) (ex : List Sexp) (rs : List Char) (c : LexCore)
+    (more : List Char) (fin' : Bool) (v' : View) (h : peekWaitA b n ex false rs c = .stop .err v') :
+    v'.exprs = ex ∧ peekWaitA b n ex fin' (rs ++ more) c = .stop .err ⟨v'.core, v'.runes ++ more, ex, fin'⟩ := by
+  induction rs generalizing c with
+  | nil =>
+    simp only [peekWaitA] at h
+    cases hh : headIf n c with
+    | some t => simp [hh] at h
+    | none => simp [hh] at h
+  | cons r rs ih =>
+    simp only [peekWaitA] at h
+    cases hh : headIf n c with
+    | some t => simp [hh] at h
+    | none =>
+      simp only [hh] at h
+      cases hs : step c r with
+      | ok c' =>
+        simp only [hs] at h
+        obtain ⟨i1, i2⟩ := ih c' h
+        exact ⟨i1, by simpa [peekWaitA, hh, hs] using i2⟩
+      | err e c' =>
+        simp only [hs, PeekOutA.stop.injEq, true_and] at h
+        subst h
+        simp [peekWaitA, hh, hs]
+
+theorem topGetA_append_err (ex : List Sexp) (rs : List Char) (c : LexCore)
+    (more : List Char) (fin' : Bool) (v' : View) (h : topGetA ex false rs c = .finished .err v') :
+    v'.exprs = ex ∧ topGetA ex fin' (rs ++ more) c = .finished .err ⟨v'.core, v'.runes ++ more, ex, fin'⟩ := by
+  induction rs generalizing c with
+  | nil =>
+    simp only [topGetA] at h
+    cases hh : c.tokens with
+    | cons t ts => simp [hh] at h
+    | nil =>
+      simp only [hh] at h
+      split at h <;> simp at h
+  | cons r rs ih =>
+    simp only [topGetA] at h
+    cases hh : c.tokens with
+    | cons t ts => simp [hh] at h
+    | nil =>
+      simp only [hh] at h
+      cases hs : step c r with
+      | ok c' =>
+        simp only [hs] at h
+        obtain ⟨i1, i2⟩ := ih c' h
+        exact ⟨i1, by simpa [topGetA, hh, hs] using i2⟩
+      | err e c' =>
+        simp only [hs, TopOutA.finished.injEq, true_and] at h
+        subst h
+        simp [topGetA, hh, hs]
+
+theorem runA_bind {α β : Type} (p : Prog α) (f : α → Prog β) (v : View) :
+    runA (p.bind f) v = match runA p v with
+      | (.ret a, v1) => runA (f a) v1
+      | (.stop st, v1) => (.stop st, v1) := by
+  induction p generalizing v with
+  | pure a => simp only [Prog.bind, runA]
+  | fail => simp only [Prog.bind, runA]
+  | waitPeek n k ih =>
+    simp only [Prog.bind, runA]
+    cases peekWaitA false n v.exprs v.fin v.runes v.core with
+    | tok t v1 => exact ih t v1
+    | stop st v1 => rfl
+  | signPeek k ih =>
+    simp only [Prog.bind, runA]
+    cases peekWaitA true 0 v.exprs v.fin v.runes v.core with
+    | tok t v1 => exact ih t v1
+    | stop st v1 => rfl
+  | peekAt n k ih =>
+    simp only [Prog.bind, runA]
+    cases peekWaitA false n v.exprs v.fin v.runes v.core with
+    | tok t v1 =>
+      simp only
+      cases v1.core.tokens[n]? with
+      | some t' => exact ih t' v1
+      | none => rfl
+    | stop st v1 => rfl
+  | getTok k ih =>
+    simp only [Prog.bind, runA]
+    cases peekWaitA false 0 v.exprs v.fin v.runes v.core with
+    | tok t v1 => exact ih t _
+    | stop st v1 => rfl
+  | topGet k ih =>
+    simp only [Prog.bind, runA]
+    cases topGetA v.exprs v.fin v.runes v.core with
+    | tok t v1 => exact ih (some t) v1
+    | finished st v1 =>
+      cases st with
+      | done => exact ih none v1
+      | more => rfl
+      | err => rfl
+  | pushTok t k ih => simp only [Prog.bind, runA]; exact ih _
+  | pushExpr e k ih => simp only [Prog.bind, runA]; exact ih _
+
+theorem suspendA_bind {α β : Type} (p : SProg α) (f : α → SProg β) (v : View) :
+    suspendA (p.bind f) v = match suspendA p v with
+      | some (e, κ, v') => some (e, κ.bind f, v')
+      | none => match runA p.erase v with
+        | (.ret a, v1) => suspendA (f a) v1
+        | (.stop _, _) => none := by
+  induction p generalizing v with
+  | pure a => simp only [SProg.bind, suspendA, SProg.erase, runA]
+  | fail => simp only [SProg.bind, suspendA, SProg.erase, runA]
+  | waitPeek n k ih =>
+    simp only [SProg.bind, suspendA, SProg.erase, runA]
+    cases peekWaitA false n v.exprs v.fin v.runes v.core with
+    | tok t v1 => exact ih t v1
+    | stop st v1 => cases st <;> simp [SProg.bind]
+  | waitLoop on k _ ih =>
+    simp only [SProg.bind, suspendA, SProg.erase, runA]
+    cases peekWaitA false 0 v.exprs v.fin v.runes v.core with
+    | tok t v1 => exact ih t v1
+    | stop st v1 => cases st <;> simp [SProg.bind]
+  | signPeek k ih =>
+    simp only [SProg.bind, suspendA, SProg.erase, runA]
+    cases peekWaitA true 0 v.exprs v.fin v.runes v.core with
+    | tok t v1 => exact ih t v1
+    | stop st v1 => cases st <;> simp [SProg.bind]
+  | peekAt n k ih =>
+    simp only [SProg.bind, suspendA, SProg.erase, runA]
+    cases peekWaitA false n v.exprs v.fin v.runes v.core with
+    | tok t v1 =>
+      simp only
+      cases v1.core.tokens[n]? with
+      | some t' => exact ih t' v1
+      | none => rfl
+    | stop st v1 => cases st <;> simp [SProg.bind]
+  | getTok k ih =>
+    simp only [SProg.bind, suspendA, SProg.erase, runA]
+    cases peekWaitA false 0 v.exprs v.fin v.runes v.core with
+    | tok t v1 => exact ih t _
+    | stop st v1 => cases st <;> simp [SProg.bind]
+  | topGet k ih =>
+    simp only [SProg.bind, suspendA, SProg.erase, runA]
+    cases topGetA v.exprs v.fin v.runes v.core with
+    | tok t v1 => exact ih (some t) v1
+    | finished st v1 => cases st <;> simp [SProg.bind]
+  | pushTok t k ih => simp only [SProg.bind, suspendA, SProg.erase, runA]; exact ih _
+  | pushExpr e k ih => simp only [SProg.bind, suspendA, SProg.erase, runA]; exact ih _
+
+/-- a program that rests at a top level that answered `done` has, on that input, done what it does
+up to there, and goes on as if the top level had answered "no token" -/
+theorem suspendA_true {α : Type} (p : SProg α) (v : View) (κ : SProg α) (v' : View)
+    (h : suspendA p v = some (true, κ, v')) :
+    ∃ k, κ = .topGet k ∧ runA p.erase v = runA (k none).erase v' := by
+  induction p generalizing v with
+  | pure a => simp [suspendA] at h
+  | fail => simp [suspendA] at h
+  | waitPeek n k ih =>
+    simp only [suspendA] at h
+    simp only [SProg.erase, runA]
+    cases hp : peekWaitA false n v.exprs v.fin v.runes v.core with
+    | tok t v1 => simp only [hp] at h; exact ih t v1 h
+    | stop st v1 => cases st <;> simp [hp] at h
+  | waitLoop on k _ ih =>
+    simp only [suspendA] at h
+    simp only [SProg.erase, runA]
+    cases hp : peekWaitA false 0 v.exprs v.fin v.runes v.core with
+    | tok t v1 => simp only [hp] at h; exact ih t v1 h
+    | stop st v1 => cases st <;> simp [hp] at h
+  | signPeek k ih =>
+    simp only [suspendA] at h
+    simp only [SProg.erase, runA]
+    cases hp : peekWaitA true 0 v.exprs v.fin v.runes v.core with
+    | tok t v1 => simp only [hp] at h; exact ih t v1 h
+    | stop st v1 => cases st <;> simp [hp] at h
+  | peekAt n k ih =>
+    simp only [suspendA] at h
+    simp only [SProg.erase, runA]
+    cases hp : peekWaitA false n v.exprs v.fin v.runes v.core with
+    | tok t v1 =>
+      simp only [hp] at h ⊢
+      cases hq : v1.core.tokens[n]? with
+      | some t' => simp only [hq] at h ⊢; exact ih t' v1 h
+      | none => simp [hq] at h
+    | stop st v1 => cases st <;> simp [hp] at h
+  | getTok k ih =>
+    simp only [suspendA] at h
+    simp only [SProg.erase, runA]
+    cases hp : peekWaitA false 0 v.exprs v.fin v.runes v.core with
+    | tok t v1 => simp only [hp] at h; exact ih t _ h
+    | stop st v1 => cases st <;> simp [hp] at h
+  | topGet k ih =>
+    simp only [suspendA] at h
+    simp only [SProg.erase, runA]
+    cases hp : topGetA v.exprs v.fin v.runes v.core with
+    | tok t v1 => simp only [hp] at h; exact ih (some t) v1 h
+    | finished st v1 =>
+      cases st with
+      | done =>
+        simp only [hp, Option.some.injEq, Prod.mk.injEq, true_and] at h
+        obtain ⟨rfl, rfl⟩ := h
+        exact ⟨k, rfl, rfl⟩
+      | more => simp [hp] at h
+      | err => simp [hp] at h
+  | pushTok t k ih => simp only [suspendA] at h; simp only [SProg.erase, runA]; exact ih _ h
+  | pushExpr e k ih => simp only [suspendA] at h; simp only [SProg.erase, runA]; exact ih _ h
+
+/-- a program that does not come to rest for lack of input ends by itself: it returns or fails -/
+theorem suspendA_none_stop {α : Type} (p : SProg α) (v : View) (h : suspendA p v = none)
+    (st : Status) (hst : (runA p.erase v).1 = .stop st) : st = .err := by
+  induction p generalizing v with
+  | pure a => simp [SProg.erase, runA] at hst
+  | fail => simp only [SProg.erase, runA, Fin.stop.injEq] at hst; exact hst.symm
+  | waitPeek n k ih =>
+    simp only [suspendA] at h
+    simp only [SProg.erase, runA] at hst
+    cases hp : peekWaitA false n v.exprs v.fin v.runes v.core with
+    | tok t v1 => simp only [hp] at h hst; exact ih t v1 h hst
+    | stop st' v1 =>
+      rcases peekWaitA_stop_cases _ _ _ _ _ _ _ _ hp with rfl | rfl
+      · simp [hp] at h
+      · simp only [hp, Fin.stop.injEq] at hst; exact hst.symm
+  | waitLoop on k _ ih =>
+    simp only [suspendA] at h
+    simp only [SProg.erase, runA] at hst
+    cases hp : peekWaitA false 0 v.exprs v.fin v.runes v.core with
+    | tok t v1 => simp only [hp] at h hst; exact ih t v1 h hst
+    | stop st' v1 =>
+      rcases peekWaitA_stop_cases _ _ _ _ _ _ _ _ hp with rfl | rfl
+      · simp [hp] at h
+      · simp only [hp, Fin.stop.injEq] at hst; exact hst.symm
+  | signPeek k ih =>
+    simp only [suspendA] at h
+    simp only [SProg.erase, runA] at hst
+    cases hp : peekWaitA true 0 v.exprs v.fin v.runes v.core with
+    | tok t v1 => simp only [hp] at h hst; exact ih t v1 h hst
+    | stop st' v1 =>
+      rcases peekWaitA_stop_cases _ _ _ _ _ _ _ _ hp with rfl | rfl
+      · simp [hp] at h
+      · simp only [hp, Fin.stop.injEq] at hst; exact hst.symm
+  | peekAt n k ih =>
+    simp only [suspendA] at h
+    simp only [SProg.erase, runA] at hst
+    cases hp : peekWaitA false n v.exprs v.fin v.runes v.core with
+    | tok t v1 =>
+      simp only [hp] at h hst
+      cases hq : v1.core.tokens[n]? with
+      | some t' => simp only [hq] at h hst; exact ih t' v1 h hst
+      | none => simp only [hq, Fin.stop.injEq] at hst; exact hst.symm
+    | stop st' v1 =>
+      rcases peekWaitA_stop_cases _ _ _ _ _ _ _ _ hp with rfl | rfl
+      · simp [hp] at h
+      · simp only [hp, Fin.stop.injEq] at hst; exact hst.symm
+  | getTok k ih =>
+    simp only [suspendA] at h
+    simp only [SProg.erase, runA] at hst
+    cases hp : peekWaitA false 0 v.exprs v.fin v.runes v.core with
+    | tok t v1 => simp only [hp] at h hst; exact ih t _ h hst
+    | stop st' v1 =>
+      rcases peekWaitA_stop_cases _ _ _ _ _ _ _ _ hp with rfl | rfl
+      · simp [hp] at h
+      · simp only [hp, Fin.stop.injEq] at hst; exact hst.symm
+  | topGet k ih =>
+    simp only [suspendA] at h
+    simp only [SProg.erase, runA] at hst
+    cases hp : topGetA v.exprs v.fin v.runes v.core with
+    | tok t v1 => simp only [hp] at h hst; exact ih (some t) v1 h hst
+    | finished st' v1 =>
+      cases st' with
+      | done => simp [hp] at h
+      | more => simp [hp] at h
+      | err => simp only [hp, Fin.stop.injEq] at hst; exact hst.symm
+  | pushTok t k ih => simp only [suspendA] at h; simp only [SProg.erase, runA] at hst; exact ih _ h hst
+  | pushExpr e k ih => simp only [suspendA] at h; simp only [SProg.erase, runA] at hst; exact ih _ h hst
+
+/-- … and it never looks at input that comes later: with any continuation of the input the run is
+the same, the continuation left unread -/
+theorem suspendA_none_append {α : Type} (p : SProg α) (v : View) (hfin : v.fin = false) (h : suspendA p v = none)
+    (more : List Char) (fin' : Bool) :
+    runA p.erase ⟨v.core, v.runes ++ more, v.exprs, fin'⟩ =
+      ((runA p.erase v).1, ⟨(runA p.erase v).2.core, (runA p.erase v).2.runes ++ more, (runA p.erase v).2.exprs, fin'⟩) := by
+  induction p generalizing v with
+  | pure a => simp only [SProg.erase, runA]
+  | fail => simp only [SProg.erase, runA]
+  | waitPeek n k ih =>
+    simp only [suspendA, hfin] at h
+    have A := peekWaitA_append false n v.exprs v.runes v.core more fin'
+    simp only [SProg.erase, runA, hfin]
+    cases hp : peekWaitA false n v.exprs false v.runes v.core with
+    | tok t v1 =>
+      simp only [hp] at h A ⊢
+      obtain ⟨a1, a2, a3⟩ := A
+      simp only [a3]
+      have := ih t v1 a2 h
+      rw [a1] at this; exact this
+    | stop st v1 =>
+      rcases peekWaitA_stop_cases _ _ _ _ _ _ _ _ hp with rfl | rfl
+      · simp [hp] at h
+      · obtain ⟨b1, b2⟩ := peekWaitA_append_err false n v.exprs v.runes v.core more fin' v1 hp
+        simp only [b2, b1]
+  | waitLoop on k _ ih =>
+    simp only [suspendA, hfin] at h
+    have A := peekWaitA_append false 0 v.exprs v.runes v.core more fin'
+    simp only [SProg.erase, runA, hfin]
+    cases hp : peekWaitA false 0 v.exprs false v.runes v.core with
+    | tok t v1 =>
+      simp only [hp] at h A ⊢
+      obtain ⟨a1, a2, a3⟩ := A
+      simp only [a3]
+      have := ih t v1 a2 h
+      rw [a1] at this; exact this
+    | stop st v1 =>
+      rcases peekWaitA_stop_cases _ _ _ _ _ _ _ _ hp with rfl | rfl
+      · simp [hp] at h
+      · obtain ⟨b1, b2⟩ := peekWaitA_append_err false 0 v.exprs v.runes v.core more fin' v1 hp
+        simp only [b2, b1]
+  | signPeek k ih =>
+    simp only [suspendA, hfin] at h
+    have A := peekWaitA_append true 0 v.exprs v.runes v.core more fin'
+    simp only [SProg.erase, runA, hfin]
+    cases hp : peekWaitA true 0 v.exprs false v.runes v.core with
+    | tok t v1 =>
+      simp only [hp] at h A ⊢
+      obtain ⟨a1, a2, a3⟩ := A
+      simp only [a3]
+      have := ih t v1 a2 h
+      rw [a1] at this; exact this
+    | stop st v1 =>
+      rcases peekWaitA_stop_cases _ _ _ _ _ _ _ _ hp with rfl | rfl
+      · simp [hp] at h
+      · obtain ⟨b1, b2⟩ := peekWaitA_append_err true 0 v.exprs v.runes v.core more fin' v1 hp
+        simp only [b2, b1]
+  | peekAt n k ih =>
+    simp only [suspendA, hfin] at h
+    have A := peekWaitA_append false n v.exprs v.runes v.core more fin'
+    simp only [SProg.erase, runA, hfin]
+    cases hp : peekWaitA false n v.exprs false v.runes v.core with
+    | tok t v1 =>
+      simp only [hp] at h A ⊢
+      obtain ⟨a1, a2, a3⟩ := A
+      simp only [a3]
+      cases hq : v1.core.tokens[n]? with
+      | some t' =>
+        simp only [hq] at h ⊢
+        have := ih t' v1 a2 h
+        rw [a1] at this; exact this
+      | none => simp only [a1]
+    | stop st v1 =>
+      rcases peekWaitA_stop_cases _ _ _ _ _ _ _ _ hp with rfl | rfl
+      · simp [hp] at h
+      · obtain ⟨b1, b2⟩ := peekWaitA_append_err false n v.exprs v.runes v.core more fin' v1 hp
+        simp only [b2, b1]
+  | getTok k ih =>
+    simp only [suspendA, hfin] at h
+    have A := peekWaitA_append false 0 v.exprs v.runes v.core more fin'
+    simp only [SProg.erase, runA, hfin]
+    cases hp : peekWaitA false 0 v.exprs false v.runes v.core with
+    | tok t v1 =>
+      simp only [hp] at h A ⊢
+      obtain ⟨a1, a2, a3⟩ := A
+      simp only [a3]
+      have := ih t { v1 with core := { v1.core with tokens := v1.core.tokens.tail } } a2 h
+      rw [← a1]; exact this
+    | stop st v1 =>
+      rcases peekWaitA_stop_cases _ _ _ _ _ _ _ _ hp with rfl | rfl
+      · simp [hp] at h
+      · obtain ⟨b1, b2⟩ := peekWaitA_append_err false 0 v.exprs v.runes v.core more fin' v1 hp
+        simp only [b2, b1]
+  | topGet k ih =>
+    simp only [suspendA, hfin] at h
+    have A := topGetA_append v.exprs v.runes v.core more fin'
+    simp only [SProg.erase, runA, hfin]
+    cases hp : topGetA v.exprs false v.runes v.core with
+    | tok t v1 =>
+      simp only [hp] at h A ⊢
+      obtain ⟨a1, a2, a3⟩ := A
+      simp only [a3]
+      have := ih (some t) v1 a2 h
+      rw [a1] at this; exact this
+    | finished st v1 =>
+      cases st with
+      | done => simp [hp] at h
+      | more => simp [hp] at h
+      | err =>
+        obtain ⟨b1, b2⟩ := topGetA_append_err v.exprs v.runes v.core more fin' v1 hp
+        simp only [b2, b1]
+  | pushTok t k ih =>
+    simp only [suspendA] at h
+    simp only [SProg.erase, runA]
+    exact ih { v with core := { v.core with tokens := t :: v.core.tokens } } hfin h
+  | pushExpr e k ih =>
+    simp only [suspendA] at h
+    simp only [SProg.erase, runA]
+    exact ih { v with exprs := v.exprs ++ [e] } hfin h
+
+theorem noTop_suspendA {α : Type} {p : SProg α} (hp : p.noTop) (v : View) (e : Bool) (κ : SProg α) (v' : View)
+    (h : suspendA p v = some (e, κ, v')) : e = false ∧ κ.noTop := by
+  induction hp generalizing v with
+  | pure a => simp [suspendA] at h
+  | fail => simp [suspendA] at h
+  | waitPeek n k hk ih =>
+    simp only [suspendA] at h
+    cases hq : peekWaitA false n v.exprs v.fin v.runes v.core with
+    | tok t v1 => simp only [hq] at h; exact ih t v1 h
+    | stop st v1 =>
+      cases st <;> simp only [hq, Option.some.injEq, Prod.mk.injEq, reduceCtorEq] at h
+      obtain ⟨rfl, rfl, _⟩ := h
+      exact ⟨rfl, .waitPeek n k hk⟩
+  | waitLoop on k hon hk _ ih =>
+    simp only [suspendA] at h
+    cases hq : peekWaitA false 0 v.exprs v.fin v.runes v.core with
+    | tok t v1 => simp only [hq] at h; exact ih t v1 h
+    | stop st v1 =>
+      cases st <;> simp only [hq, Option.some.injEq, Prod.mk.injEq, reduceCtorEq] at h
+      obtain ⟨rfl, rfl, _⟩ := h
+      exact ⟨rfl, .waitLoop on k hon hk⟩
+  | signPeek k hk ih =>
+    simp only [suspendA] at h
+    cases hq : peekWaitA true 0 v.exprs v.fin v.runes v.core with
+    | tok t v1 => simp only [hq] at h; exact ih t v1 h
+    | stop st v1 =>
+      cases st <;> simp only [hq, Option.some.injEq, Prod.mk.injEq, reduceCtorEq] at h
+      obtain ⟨rfl, rfl, _⟩ := h
+      exact ⟨rfl, .signPeek k hk⟩
+  | peekAt n k hk ih =>
+    simp only [suspendA] at h
+    cases hq : peekWaitA false n v.exprs v.fin v.runes v.core with
+    | tok t v1 =>
+      simp only [hq] at h
+      cases hr : v1.core.tokens[n]? with
+      | some t' => simp only [hr] at h; exact ih t' v1 h
+      | none => simp [hr] at h
+    | stop st v1 =>
+      cases st <;> simp only [hq, Option.some.injEq, Prod.mk.injEq, reduceCtorEq] at h
+      obtain ⟨rfl, rfl, _⟩ := h
+      exact ⟨rfl, .peekAt n k hk⟩
+  | getTok k hk ih =>
+    simp only [suspendA] at h
+    cases hq : peekWaitA false 0 v.exprs v.fin v.runes v.core with
+    | tok t v1 => simp only [hq] at h; exact ih t _ h
+    | stop st v1 =>
+      cases st <;> simp only [hq, Option.some.injEq, Prod.mk.injEq, reduceCtorEq] at h
+      obtain ⟨rfl, rfl, _⟩ := h
+      exact ⟨rfl, .getTok k hk⟩
+  | pushTok t k _ ih => simp only [suspendA] at h; exact ih _ h
+  | pushExpr e' k _ ih => simp only [suspendA] at h; exact ih _ h
+
+/-! ## 4. The programs the protocol ever holds -/
+
+/-- what `ParsingIter` does with a parsed expression: append it to the reply, next round -/
+def afterExpr (f : Nat) (e : Sexp) : SProg Unit := .pushExpr e (S.topLoop f)
+
+/-- The programs `PSt.parseTokens` runs: the `ParsingIter` loop at some fuel, or an expression parser
+(which never asks the top level) followed by the rest of the loop. -/
+inductive TL (F : Nat) : SProg Unit → Prop
+  | top (f : Nat) (h : f ≤ F) : TL F (S.topLoop f)
+  | inner (f : Nat) (h : f + 1 ≤ F) (P : SProg Sexp) (hP : P.noTop) : TL F (P.bind (afterExpr f))
+
+theorem topLoop_succ_eq (f : Nat) : S.topLoop (f + 1) =
+    .topGet (fun t => match t with
+      | none => .pure ()
+      | some tok => (S.parseExprTok f tok).bind (afterExpr f)) := by
+  rw [S.topLoop]
+  simp only [bind, pure, S.topGet, SProg.bind]
+  congr 1
+
+/-- what `suspendA` and `runA` say about a program of the protocol -/
+def SLfor (F : Nat) (Q : SProg Unit) : Prop := ∀ v : View,
+  (∀ κ v', suspendA Q v = some (true, κ, v') →
+      (∃ f, f + 1 ≤ F ∧ κ = S.topLoop (f + 1)) ∧ runA Q.erase v = (.ret (), v')) ∧
+  (∀ κ v', suspendA Q v = some (false, κ, v') → TL F κ) ∧
+  (suspendA Q v = none → (runA Q.erase v).1 = .stop .err)
+
+theorem SL_inner (F f : Nat) (hle : f + 1 ≤ F) (ihtop : SLfor F (S.topLoop f)) (P : SProg Sexp) (hP : P.noTop) :
+    SLfor F (P.bind (afterExpr f)) := by
+  intro v
+  rw [suspendA_bind, SProg.erase_bind, runA_bind]
+  cases hs : suspendA P v with
+  | some x =>
+    obtain ⟨e, κ0, v0⟩ := x
+    obtain ⟨rfl, hκ⟩ := noTop_suspendA hP v e κ0 v0 hs
+    refine ⟨?_, ?_, ?_⟩
+    · intro κ v' h; simp at h
+    · intro κ v' h
+      simp only [Option.some.injEq, Prod.mk.injEq, true_and] at h
+      obtain ⟨rfl, _⟩ := h
+      exact .inner f hle κ0 hκ
+    · intro h; simp at h
+  | none =>
+    simp only
+    cases hr : runA P.erase v with
+    | mk r v1 =>
+      cases r with
+      | ret a =>
+        simp only [afterExpr, suspendA, SProg.erase, runA]
+        exact ihtop _
+      | stop st =>
+        have hst := suspendA_none_stop P v hs st (by rw [hr])
+        subst hst
+        refine ⟨?_, ?_, ?_⟩
+        · intro κ v' h; simp at h
+        · intro κ v' h; simp at h
+        · intro _; rfl
+
+theorem SL_top (F : Nat) : ∀ f, f ≤ F → SLfor F (S.topLoop f) := by
+  intro f
+  induction f with
+  | zero =>
+    intro _ v
+    rw [S.topLoop]
+    simp [S.fail, suspendA, SProg.erase, runA]
+  | succ f ih =>
+    intro hle v
+    have ihf := ih (by omega)
+    rw [topLoop_succ_eq]
+    simp only [suspendA, SProg.erase, runA]
+    cases hp : topGetA v.exprs v.fin v.runes v.core with
+    | tok t v1 =>
+      simp only
+      exact SL_inner F f hle ihf (S.parseExprTok f t) ((noTopAll f).1 t) v1
+    | finished st v1 =>
+      cases st with
+      | done =>
+        refine ⟨?_, ?_, ?_⟩
+        · intro κ v' h
+          simp only [Option.some.injEq, Prod.mk.injEq, true_and] at h
+          obtain ⟨rfl, rfl⟩ := h
+          exact ⟨⟨f, hle, (topLoop_succ_eq f).symm⟩, rfl⟩
+        · intro κ v' h; simp at h
+        · intro h; simp at h
+      | more =>
+        refine ⟨?_, ?_, ?_⟩
+        · intro κ v' h; simp at h
+        · intro κ v' h
+          simp only [Option.some.injEq, Prod.mk.injEq, true_and] at h
+          obtain ⟨rfl, _⟩ := h
+          rw [← topLoop_succ_eq]
+          exact .top (f + 1) hle
+        · intro h; simp at h
+      | err =>
+        refine ⟨?_, ?_, ?_⟩
+        · intro κ v' h; simp at h
+        · intro κ v' h; simp at h
+        · intro _; rfl
+
+theorem SL_of_TL (F : Nat) (Q : SProg Unit) (h : TL F Q) : SLfor F Q := by
+  cases h with
+  | top f hle => exact SL_top F f hle
+  | inner f hle P hP => exact SL_inner F f hle (SL_top F f (by omega)) P hP
+
 end ZygoVerif.Parser
